@@ -7,7 +7,7 @@ CONSTANTS
   IdClasses = {"low", "gen", "high"}
   DictForms = {"plain", "cf-length-bits", "cf-no-length", "no-length"}
   Roots = {"object", "objstm"}
-  Dev = {"encrypt_dict_decrypted"}
+  Dev = {"aesv2_defaults_to_40_bits"}
 INIT Init
 NEXT Next
 INVARIANTS PlaintextOrRejected
